@@ -552,8 +552,31 @@ class Fn(object):
         self._loops = loops
         return loops
 
-    def loop_containing_call(self, needle):
-        """header of the innermost loop whose body contains a call whose callee text contains `needle`"""
+    def calls_transitively(self, needle, crate, depth, seen=None):
+        """some call in this function names `needle`, directly or through crate functions up to `depth` levels down"""
+        seen = seen if seen is not None else set()
+        if self.name in seen:
+            return False
+        seen.add(self.name)
+        self.parse()
+        for b, blk in self.blocks.items():
+            t = blk[1]
+            if not t or t[0] != 'call':
+                continue
+            if needle in t[2]:
+                return True
+            if crate is not None and depth > 0:
+                try:
+                    g = crate.resolve(t[2])
+                except Unsupported:
+                    g = None
+                if g is not None and g.calls_transitively(needle, crate, depth - 1, seen):
+                    return True
+        return False
+
+    def loop_containing_call(self, needle, crate=None, depth=2):
+        """header of the innermost loop whose body contains a call whose callee text contains `needle` (or, given the
+        crate, a call of a crate function that reaches such a call: the loop body may have been moved into a helper)"""
         best = None
         for h, body in self.loops().items():
             for b in body:
@@ -561,6 +584,19 @@ class Fn(object):
                 if t and t[0] == 'call' and needle in t[2]:
                     if best is None or len(body) < len(self.loops()[best]):
                         best = h
+        if best is None and crate is not None:
+            for h, body in self.loops().items():
+                for b in body:
+                    t = self.blocks[b][1]
+                    if not (t and t[0] == 'call'):
+                        continue
+                    try:
+                        g = crate.resolve(t[2])
+                    except Unsupported:
+                        g = None
+                    if g is not None and g.calls_transitively(needle, crate, depth - 1):
+                        if best is None or len(body) < len(self.loops()[best]):
+                            best = h
         return best
 
     def _postdom(self):
